@@ -74,6 +74,8 @@ type Exec struct {
 	deadline             time.Time
 	exprTypes            map[Expr]types.Type
 	oldSet               map[int]bool
+	divAlias             map[int]*smt.Term
+	divRest              map[[2]int]*smt.Term
 }
 
 func (x *Exec) axiom(t *smt.Term) {
